@@ -251,7 +251,7 @@ partial def loop (h : IO.FS.Stream) (s : St) : IO Unit := do
         printVios s.sc s.line (s.m.rest s.w)
         loop h { s with rested := true }
       else
-        IO.println s!"REJ {s.sc} {s.line} rest: the real system is quiescent but the model still has work in hand || {raw}"
+        IO.println s!"REJ {s.sc} {s.line} rest: the real system is quiescent but the model still has work in hand ({restWhy s.w}) || {raw}"
         loop h { s with rejected := true }
     | "T" :: "retry" :: _ | "T" :: "semkey" :: _ =>
       match retryLine toks with
